@@ -115,27 +115,27 @@ for (fl, ns) in (("bcast", ((1, "quick"), (2, "quick"), (4, "thorough"))), ("mpm
            "N=%d, %s; sole consumer; head, positions, payloads symbolic" % (n, "<=3 streams" if fl == "bcast" else "1 stream"))
 
 # S7 InnerSend::try_send
-_k("s7_inner_send_bcast_n2_k0", MQ_S, "S", ["C13", "C09", "C16"], "quick", "N=2, no stream left; signals symbolic")
-_k("s7_inner_send_mpmc_n2_k0", MQ_S, "S", ["C13", "C09", "C16"], "quick", "N=2, no stream left; signals symbolic")
+_k("s7_inner_send_bcast_n2_k0", MQ_S, "S", ["C13", "C09", "C16", "C17"], "quick", "N=2, no stream left; signals symbolic")
+_k("s7_inner_send_mpmc_n2_k0", MQ_S, "S", ["C13", "C09", "C16", "C17"], "quick", "N=2, no stream left; signals symbolic")
 for (nm, tier) in (("bcast_n1_k1", "quick"), ("bcast_n2_k2", "quick"), ("bcast_n4_k2", "thorough"),
                    ("mpmc_n1_k1", "thorough"), ("mpmc_n2_k1", "quick"), ("mpmc_n4_k1", "thorough")):
-    _k("s7_inner_send_" + nm, MQ_S, "S", ["C01", "C03", "C05", "C09", "C12", "C16", "C08", "C14"], tier,
+    _k("s7_inner_send_" + nm, MQ_S, "S", ["C01", "C03", "C05", "C09", "C12", "C16", "C17", "C08", "C14"], tier,
        nm + "; handle mode, writer count, epoch flag, notify flag symbolic")
 
 # S8 InnerRecv entry points (blocking forms under the scripted wake-up)
 for (nm, tier, props) in (
-        ("try_recv_bcast_n2", "quick", ["C01", "C07", "C09", "C16", "C18"]),
-        ("recv_bcast_n1", "thorough", ["C01", "C07", "C08", "C09"]),
-        ("recv_bcast_n2", "quick", ["C01", "C07", "C08", "C09"]),
-        ("recv_bcast_n4", "thorough", ["C01", "C07", "C08", "C09"]),
-        ("try_view_bcast_n2", "quick", ["C01", "C04", "C07", "C09", "C18"]),
-        ("recv_view_bcast_n2", "quick", ["C01", "C04", "C07", "C08", "C09"]),
-        ("try_recv_mpmc_n2", "quick", ["C01", "C07", "C09", "C16", "C18"]),
-        ("recv_mpmc_n1", "thorough", ["C01", "C07", "C08", "C09"]),
-        ("recv_mpmc_n2", "quick", ["C01", "C07", "C08", "C09"]),
-        ("recv_mpmc_n4", "thorough", ["C01", "C07", "C08", "C09"]),
-        ("try_view_mpmc_n2", "thorough", ["C01", "C04", "C05", "C07", "C09", "C18"]),
-        ("recv_view_mpmc_n2", "quick", ["C01", "C04", "C05", "C07", "C08", "C09"])):
+        ("try_recv_bcast_n2", "quick", ["C01", "C07", "C09", "C16", "C18", "C17"]),
+        ("recv_bcast_n1", "thorough", ["C01", "C07", "C08", "C09", "C16", "C17"]),
+        ("recv_bcast_n2", "quick", ["C01", "C07", "C08", "C09", "C16", "C17"]),
+        ("recv_bcast_n4", "thorough", ["C01", "C07", "C08", "C09", "C16", "C17"]),
+        ("try_view_bcast_n2", "quick", ["C01", "C04", "C07", "C09", "C18", "C16", "C17"]),
+        ("recv_view_bcast_n2", "quick", ["C01", "C04", "C07", "C08", "C09", "C16", "C17"]),
+        ("try_recv_mpmc_n2", "quick", ["C01", "C07", "C09", "C16", "C18", "C17"]),
+        ("recv_mpmc_n1", "thorough", ["C01", "C07", "C08", "C09", "C16", "C17"]),
+        ("recv_mpmc_n2", "quick", ["C01", "C07", "C08", "C09", "C16", "C17"]),
+        ("recv_mpmc_n4", "thorough", ["C01", "C07", "C08", "C09", "C16", "C17"]),
+        ("try_view_mpmc_n2", "thorough", ["C01", "C04", "C05", "C07", "C09", "C18", "C16", "C17"]),
+        ("recv_view_mpmc_n2", "quick", ["C01", "C04", "C05", "C07", "C08", "C09", "C16", "C17"])):
     _k("s8_" + nm, MQ_S, "S", props, tier, nm + "; arbitrary wf state; scripted wake-up (publish one value | all senders leave)")
 
 # S10 clone / drop / unsubscribe
@@ -151,9 +151,9 @@ _k("s10_drop_recv_mpmc_n2", MQ_S, "S", ["C05", "C09", "C11", "C12", "C13", "C16"
 _k("s10_unsub_recv_mpmc_n2", MQ_S, "S", ["C09", "C11", "C12", "C16", "C17"], "thorough", "N=2, 1 stream; unsubscribe()")
 
 # S9 add_stream (sequential)
-_k("s9_add_stream_bcast_n2_k1", MQ_S, "S", ["C01", "C03", "C09", "C10", "C16"], "quick", "N=2, 1 stream")
-_k("s9_add_stream_bcast_n2_k2", MQ_S, "S", ["C01", "C03", "C09", "C10", "C16"], "quick", "N=2, 2 streams")
-_k("s9_add_stream_bcast_n4_k2", MQ_S, "S", ["C01", "C03", "C09", "C10", "C16"], "thorough", "N=4, 2 streams")
+_k("s9_add_stream_bcast_n2_k1", MQ_S, "S", ["C01", "C02", "C03", "C09", "C10", "C16"], "quick", "N=2, 1 stream")
+_k("s9_add_stream_bcast_n2_k2", MQ_S, "S", ["C01", "C02", "C03", "C09", "C10", "C16"], "quick", "N=2, 2 streams")
+_k("s9_add_stream_bcast_n4_k2", MQ_S, "S", ["C01", "C02", "C03", "C09", "C10", "C16"], "thorough", "N=4, 2 streams")
 
 # S11 teardown of the ring
 for fl in ("bcast", "mpmc"):
@@ -196,7 +196,7 @@ for (nm, tier, props) in (
 
 _k("s12_into_single_bcast_n2", MQ_S, "S", ["C09", "C12", "C14", "C15"], "quick", "N=2, 2 streams, <=3 consumers; into_single on a futures receiver")
 _k("s12_into_single_mpmc_n2", MQ_S, "S", ["C09", "C12", "C14", "C15"], "quick", "N=2, 1 stream")
-_k("s12_uni_into_multi_bcast_n2", MQ_S, "S", ["C01", "C09", "C10", "C14", "C15"], "quick", "N=2, 2 streams; FutInnerUniRecv::into_multi")
+_k("s12_uni_into_multi_bcast_n2", MQ_S, "S", ["C01", "C02", "C09", "C10", "C14", "C15"], "quick", "N=2, 2 streams; FutInnerUniRecv::into_multi")
 _k("s12_uni_add_stream_bcast_n2", MQ_S, "S", ["C09", "C10", "C14", "C15"], "thorough", "N=2, 2 streams; add_stream_with")
 
 # S12w: FutWait alone (callee contracts of the futures harnesses)
